@@ -1,14 +1,23 @@
 #!/bin/sh
-# usage: tools/seed_run.sh <seed-dir> [<prop>...]  -- apply a seeded change to /repo, run the named checks
-# (default: the property in the seed's name), undo the change.  Prints one summary line per check.
+# usage: tools/seed_run.sh <seed-dir> [<prop>...]
+# Run checks against a seeded change.  Default: on a scratch copy of /repo's working tree (KLEPTO_REPO), so that
+# /repo is not disturbed and several seeds can be tried at once; with SEED_INPLACE=1 the patch is applied to
+# /repo itself (git apply) and undone afterwards (git checkout -- .), which is the procedure of the brief.
 S=$(cd "$1" && pwd); N=$(basename "$S"); shift
 [ $# -eq 0 ] && set -- "${N%%-*}"
 V=$(cd "$(dirname "$0")/.." && pwd)
-git -C /repo diff --quiet || { echo "/repo has local changes; refusing"; exit 9; }
-git -C /repo apply "$S/patch.diff" || { echo "$N: patch does not apply"; exit 9; }
-trap 'git -C /repo checkout -- . ' EXIT
+if [ -n "$SEED_INPLACE" ]; then
+  git -C /repo diff --quiet || { echo "/repo has local changes; refusing"; exit 9; }
+  git -C /repo apply "$S/patch.diff" || { echo "$N: patch does not apply"; exit 9; }
+  trap 'git -C /repo checkout -- . ' EXIT
+else
+  T=$(mktemp -d /tmp/seedrun.XXXXXX); trap 'rm -rf "$T"' EXIT
+  mkdir -p "$T/repo"; cp -r /repo/klepto "$T/repo/klepto"
+  (cd "$T/repo" && patch -p1 -s < "$S/patch.diff") || { echo "$N: patch does not apply"; exit 9; }
+  export KLEPTO_REPO="$T/repo"
+fi
 for prop in "$@"; do
   OUT=$("$V/check" $prop 2>&1); RC=$?
   NV=$(echo "$OUT" | grep -c '^VIOLATION')
-  echo "SEED $N check=$prop exit=$RC violations=$NV :: $(echo "$OUT" | grep -E '^(VIOLATION|UNDECIDED|CHECKER-BROKEN)' | head -3 | cut -c1-220 | tr '\n' ';')"
+  echo "SEED $N check=$prop exit=$RC violations=$NV :: $(echo "$OUT" | grep -E '^(VIOLATION|UNDECIDED|CHECKER-BROKEN)' | head -3 | sed 's/replay=[^ ]* //' | cut -c1-200 | tr '\n' ';')"
 done
